@@ -25,6 +25,7 @@ import (
 	"sync"
 	"time"
 
+	"github.com/mitchellh/copystructure"
 	"github.com/pkg/errors"
 	metav1 "k8s.io/apimachinery/pkg/apis/meta/v1"
 	"k8s.io/cli-runtime/pkg/resource"
@@ -571,7 +572,13 @@ func (u *Upgrade) reuseValues(chart *chart.Chart, current *release.Release, newV
 			return nil, errors.Wrap(err, "failed to rebuild old values")
 		}
 
-		newVals = chartutil.CoalesceTables(newVals, current.Config)
+		// CoalesceTables writes into its destination: overlay onto a copy so that the
+		// map the caller passed in is left as it was.
+		valsCopy, err := copyVals(newVals)
+		if err != nil {
+			return nil, errors.Wrap(err, "failed to copy the new values")
+		}
+		newVals = chartutil.CoalesceTables(valsCopy, current.Config)
 
 		chart.Values = oldVals
 
@@ -582,7 +589,12 @@ func (u *Upgrade) reuseValues(chart *chart.Chart, current *release.Release, newV
 	if u.ResetThenReuseValues {
 		slog.Debug("merging values from old release to new values")
 
-		newVals = chartutil.CoalesceTables(newVals, current.Config)
+		// As above: do not write into the caller's map.
+		valsCopy, err := copyVals(newVals)
+		if err != nil {
+			return nil, errors.Wrap(err, "failed to copy the new values")
+		}
+		newVals = chartutil.CoalesceTables(valsCopy, current.Config)
 
 		return newVals, nil
 	}
@@ -592,6 +604,18 @@ func (u *Upgrade) reuseValues(chart *chart.Chart, current *release.Release, newV
 		newVals = current.Config
 	}
 	return newVals, nil
+}
+
+// copyVals returns a deep copy of a values map (nil stays nil).
+func copyVals(vals map[string]interface{}) (map[string]interface{}, error) {
+	if vals == nil {
+		return nil, nil
+	}
+	c, err := copystructure.Copy(vals)
+	if err != nil {
+		return nil, err
+	}
+	return c.(map[string]interface{}), nil
 }
 
 func validateManifest(c kube.Interface, manifest []byte, openAPIValidation bool) error {
